@@ -233,6 +233,11 @@ type Pool struct {
 	epoch uint64
 	// Fingerprint (harness, state-key pruning): what a thread learns from a pooled object it gets.
 	Fingerprint func(any) uint64
+	// Sched (harness): Get and Put on this pool are scheduling points (off by default: the token pools
+	// of RBMutex / the striped counter are hit on every read, and nothing is done with a pooled token
+	// after it is put back; the singleflight record pool is different: a record handed back may be
+	// taken and overwritten by the next leader at once).
+	Sched bool
 }
 
 func (p *Pool) sync() {
@@ -268,6 +273,9 @@ func (p *Pool) Get() any {
 		return p.real.Get()
 	}
 	p.sync()
+	if p.Sched {
+		vrt.Yield("pool.Get", "")
+	}
 	if n := len(p.items); n > 0 {
 		if vrt.PoolFresh() && vrt.Choose("pool-get-fresh", 2) == 1 {
 			if p.New != nil {
@@ -299,6 +307,9 @@ func (p *Pool) Put(x any) {
 	p.sync()
 	vrt.HBRelease(p)
 	p.items = append(p.items, x)
+	if p.Sched {
+		vrt.Yield("pool.Put", "")
+	}
 }
 
 type Once struct {
